@@ -2,24 +2,69 @@
 //! offset information changes. E1 over all zones: from every probe instant the
 //! first items of `following`/`preceding`, and both iterators to exhaustion
 //! from the range limits, against the R-tz breakpoint list.
+//!
+//! Zone kinds: TZif from the system, bundled and zic-compiled corpora (slim and
+//! fat, with a DST footer, with a footer without DST, without footer: the
+//! `right/` zones), the hand-built TZif files of C03 (`c03/hb.rs`: extreme
+//! offsets, consecutive-second transitions, abbreviation-only and flag-only
+//! changes, version-1-only data, empty footer, transitions outside the
+//! timestamp range), POSIX strings (the product alphabet, plus the small
+//! every-year alphabet with explicit, negative and fractional DST offsets),
+//! `static` zones (`jiff::tz::get!` and `jiff::tz::include!`: their tables are
+//! produced at compile time by the *copy* of the TZif reader and fattener in
+//! `jiff-static`), fixed offsets, UTC and the unknown zone.
+//!
+//! Start instants: on / 1 ns / 0.5 s / 1 s before and after every selected
+//! transition, the middle of every piece next to a selected transition (this
+//! includes the hand-over piece between the last recorded and the first
+//! rule-generated transition), the same seven instants around every selected
+//! UTC year boundary (the per-year evaluation of POSIX rules switches years
+//! there), and MIN, MAX, the epoch and their neighbours for every zone.
 
-use jiff::tz::TimeZone;
+use jiff::tz::{TimeZone, TimeZoneTransition};
 use jiff::Timestamp;
 use rayon::prelude::*;
+use refmodel::cal;
 use refmodel::tz::{self as rtz, Eff};
 use serde_json::json;
 use std::sync::atomic::{AtomicU64, Ordering};
 use vf::zones::{self, Pair, ZoneSrc};
 use vf::{guard, panic_sig, Report};
 
+#[path = "c03/hb.rs"]
+mod hb;
+use hb::Agg;
+
 const NS: i128 = 1_000_000_000;
+/// Known finding F48 (see C03): a recorded transition outside the timestamp
+/// range is clamped onto the first / last second of the range.
+const F48: &str = ":recorded-transition-outside-timestamp-range-clamped-onto-MIN-or-MAX";
 
 type Item = (i128, i32, bool, String);
+
+/// How much of the rule-governed part of a zone is probed.
+#[derive(Clone, Copy, PartialEq, Eq, Debug)]
+enum Walk {
+    /// every rule year: exhaustion from MIN, MAX and the epoch, probes at every transition
+    Full,
+    /// exhaustion from MIN / MAX, probes in the selected rule years
+    EndsAndWindows,
+    /// exhaustion over the first / last millennium, probes in the selected rule years
+    MillenniaAndWindows,
+}
+
+macro_rules! static_get {
+    ($($n:literal),* $(,)?) => { vec![$(($n, jiff::tz::get!($n))),*] };
+}
 
 fn main() {
     let r = Report::from_args("C14");
     let items_total = AtomicU64::new(0);
     let runs_total = AtomicU64::new(0);
+    let tally = |a: (u64, u64)| {
+        runs_total.fetch_add(a.0, Ordering::Relaxed);
+        items_total.fetch_add(a.1, Ordering::Relaxed);
+    };
 
     let mut corpus: Vec<(&str, Vec<ZoneSrc>)> = vec![];
     corpus.push(("sys", zones::sys(true)));
@@ -42,44 +87,168 @@ fn main() {
                     r.count("zones_not_loaded(see C03)", 1);
                     return;
                 };
-                let (a, b) = check_zone(&r, &sec, &pair);
-                runs_total.fetch_add(a, Ordering::Relaxed);
-                items_total.fetch_add(b, Ordering::Relaxed);
+                // thorough: every zone over every rule year. quick: the
+                // representative zones over every rule year, the others to
+                // exhaustion from both ends with probes in the selected years
+                let walk = if r.thorough() || (pair.origin == "sys" && zones::REP.contains(&pair.name.as_str())) { Walk::Full } else { Walk::EndsAndWindows };
+                tally(check_zone(&r, &sec, &pair, walk));
                 r.add_states(1);
             });
         });
     }
+    r.section("handbuilt", || {
+        // hand-built TZif shapes zic does not emit; every one walked in full
+        let mut zs = hb::handbuilt();
+        zs.extend(extra_handbuilt());
+        zs.par_iter().for_each(|z| {
+            let Ok(pair) = zones::load_pair(z) else {
+                r.count("handbuilt_zones_not_loaded(see C03)", 1);
+                return;
+            };
+            r.count("handbuilt_zones", 1);
+            let eff = pair.model.effective();
+            let flag_only = (1..eff.len()).filter(|&i| {
+                let (a, b) = (&pair.model.infos[eff[i - 1].info as usize], &pair.model.infos[eff[i].info as usize]);
+                eff[i].changing && a.utoff == b.utoff
+            });
+            r.count("handbuilt_transitions_changing_only_abbreviation_or_dst_flag", flag_only.count() as u64);
+            tally(check_zone(&r, "handbuilt", &pair, Walk::Full));
+            r.add_states(1);
+        });
+    });
+    r.section("static", || {
+        // STATIC_TZIF zones. `get!` reads the bundled database at compile time,
+        // `include!` a file; the model reads the same bytes at run time.
+        let got: Vec<(&str, TimeZone)> = static_get![
+            "America/New_York",
+            "Europe/London",
+            "Europe/Dublin",
+            "Europe/Berlin",
+            "Australia/Lord_Howe",
+            "Australia/Sydney",
+            "Pacific/Apia",
+            "Pacific/Kiritimati",
+            "Africa/Casablanca",
+            "America/Sao_Paulo",
+            "Asia/Kathmandu",
+            "Pacific/Honolulu",
+            "Africa/Abidjan",
+            "Africa/Monrovia",
+            "Antarctica/Troll",
+            "America/St_Johns",
+            "Asia/Tehran",
+            "America/Caracas",
+            "America/Ojinaga",
+            "America/Nuuk",
+            "Asia/Gaza",
+            "UTC",
+        ];
+        let mut pairs: Vec<Pair> = vec![];
+        for (n, tz) in got {
+            let Some((_, bytes)) = jiff_tzdb::get(n) else {
+                r.count("static_zones_without_bundled_bytes", 1);
+                continue;
+            };
+            match rtz::zone_from_tzif(bytes) {
+                Ok(model) => pairs.push(Pair { name: n.to_string(), origin: "static-get".into(), model, jiff: tz }),
+                Err(_) => r.count("static_zones_model_refused", 1),
+            }
+        }
+        let included: Vec<(&str, &str, TimeZone)> = vec![
+            // no footer at all (leap-second flavour of the system database)
+            ("right/America/New_York", "/usr/share/zoneinfo/right/America/New_York", jiff::tz::include!("/usr/share/zoneinfo/right/America/New_York")),
+            ("Australia/Melbourne", "/usr/share/zoneinfo/Australia/Melbourne", jiff::tz::include!("/usr/share/zoneinfo/Australia/Melbourne")),
+            ("Asia/Kolkata", "/usr/share/zoneinfo/Asia/Kolkata", jiff::tz::include!("/usr/share/zoneinfo/Asia/Kolkata")),
+        ];
+        for (n, path, tz) in included {
+            // the file may have changed since compile time only if the system
+            // database was updated without rebuilding; the harness is rebuilt
+            // by `check` on every run
+            let Ok(bytes) = std::fs::read(path) else {
+                r.count("static_zones_file_unreadable", 1);
+                continue;
+            };
+            match rtz::zone_from_tzif(&bytes) {
+                Ok(model) => pairs.push(Pair { name: n.to_string(), origin: "static-include".into(), model, jiff: tz }),
+                Err(_) => r.count("static_zones_model_refused", 1),
+            }
+        }
+        pairs.par_iter().for_each(|pair| {
+            r.count("static_zones", 1);
+            if pair.model.footer.is_none() && pair.model.n_recorded > 0 {
+                r.count("static_zones_without_footer", 1);
+            }
+            tally(check_zone(&r, "static", pair, Walk::Full));
+            r.add_states(1);
+        });
+    });
     r.section("posix", || {
         let strs = zones::posix_alphabet(if r.quick() { 0 } else { 1 });
+        strs.par_iter().enumerate().for_each(|(k, s)| {
+            let Ok(pair) = zones::load_posix_pair(s) else {
+                r.count("zones_not_loaded(see C03)", 1);
+                return;
+            };
+            // POSIX strings run to exhaustion over the last / first millennium
+            // only; thorough: every 17th string of the alphabet (17 is prime to
+            // the sizes of all factors of the product) over every rule year
+            let walk = if r.thorough() && k % 17 == 0 { Walk::Full } else { Walk::MillenniaAndWindows };
+            if walk == Walk::Full {
+                r.count("posix_strings_walked_over_every_rule_year", 1);
+            }
+            tally(check_zone(&r, "posix", &pair, walk));
+            r.add_states(1);
+        });
+    });
+    r.section("posix-every-year", || {
+        // the small alphabet (explicit, negative and fractional DST offsets,
+        // DST periods shorter than the DST shift, the F7 family), every rule
+        // year from -9999 to 9999 in both tiers
+        let strs = hb::posix_every_year_level(if r.quick() { 0 } else { 1 });
         strs.par_iter().for_each(|s| {
             let Ok(pair) = zones::load_posix_pair(s) else {
                 r.count("zones_not_loaded(see C03)", 1);
                 return;
             };
-            let (a, b) = check_zone(&r, "posix", &pair);
-            runs_total.fetch_add(a, Ordering::Relaxed);
-            items_total.fetch_add(b, Ordering::Relaxed);
+            r.count("posix_strings_walked_over_every_rule_year", 1);
+            tally(check_zone(&r, "posix-every-year", &pair, Walk::Full));
             r.add_states(1);
         });
     });
     r.section("fixed", || {
-        // fixed zones and UTC have no transitions at all
-        for secs in [-93599, -3600, -1, 0, 1, 19800, 93599] {
-            let tz = TimeZone::fixed(jiff::tz::Offset::from_seconds(secs).unwrap());
-            for t in [Timestamp::MIN, Timestamp::UNIX_EPOCH, Timestamp::MAX] {
-                let n = guard(|| tz.following(t).count() + tz.preceding(t).count());
-                match n {
-                    Ok(0) => {}
-                    Ok(k) => r.viol("fixed", "fixed-zone/yields-transitions", format!("fixed {} from {}", secs, t), format!("{} items", k)),
-                    Err(p) => r.viol("fixed", &format!("fixed-zone/{}", panic_sig(&p)), format!("fixed {} from {}", secs, t), p),
-                }
-                r.add_transitions(2);
-            }
+        // fixed zones, UTC and the unknown zone have no transitions at all;
+        // the iterators stay exhausted (FusedIterator)
+        let starts: Vec<Timestamp> = [Timestamp::MIN.as_nanosecond(), Timestamp::MIN.as_nanosecond() + 1, -NS, -1, 0, 1, NS, Timestamp::MAX.as_nanosecond() - 1, Timestamp::MAX.as_nanosecond()]
+            .iter()
+            .map(|&n| Timestamp::from_nanosecond(n).unwrap())
+            .collect();
+        let mut tzs: Vec<(String, TimeZone)> = vec![];
+        for secs in [-93599, -86400, -3600, -1, 0, 1, 19800, 86400, 93599] {
+            tzs.push((format!("fixed {}", secs), TimeZone::fixed(jiff::tz::Offset::from_seconds(secs).unwrap())));
         }
-        for tz in [TimeZone::UTC, TimeZone::unknown()] {
-            let n = guard(|| tz.following(Timestamp::MIN).count() + tz.preceding(Timestamp::MAX).count());
-            if n != Ok(0) {
-                r.viol("fixed", "fixed-zone/yields-transitions", "UTC/unknown".to_string(), format!("{:?}", n));
+        tzs.push(("UTC".into(), TimeZone::UTC));
+        tzs.push(("unknown".into(), TimeZone::unknown()));
+        tzs.push(("fixed(Offset::UTC)".into(), TimeZone::fixed(jiff::tz::Offset::UTC)));
+        tzs.push(("static fixed".into(), FIXED_STATIC.clone()));
+        for (name, tz) in &tzs {
+            for &t in &starts {
+                for forward in [true, false] {
+                    let case = format!("{} {} from {}", name, if forward { "following" } else { "preceding" }, t);
+                    let got = guard(|| if forward { run_iter(tz.following(t), 8, true) } else { run_iter(tz.preceding(t), 8, true) });
+                    match got {
+                        Err(p) => r.viol("fixed", &format!("fixed-zone/{}", panic_sig(&p)), case, p),
+                        Ok(run) => {
+                            if !run.items.is_empty() {
+                                r.viol("fixed", "fixed-zone/yields-transitions", case.clone(), format!("{} items", run.items.len()));
+                            }
+                            if let Some(what) = run.contract_failure() {
+                                r.viol("fixed", &format!("fixed-zone/iterator-contract:{}", what), case, format!("{:?}", run.hint));
+                            }
+                        }
+                    }
+                    r.add_transitions(1);
+                    r.count("fixed_zone_runs", 1);
+                }
             }
         }
     });
@@ -88,13 +257,167 @@ fn main() {
     if r.only_section.is_none() {
         r.require(items_total.load(Ordering::Relaxed) > 1_000_000, "more than 1M yielded items checked");
         r.require(r.get_count("exhaustive_runs") > 1000, "exhaustive runs happened");
+        r.require(r.get_count("handbuilt_zones") >= 18, "the 12 hand-built TZif zones of C03 and the 6 of C14 were loaded and walked");
+        r.require(r.get_count("handbuilt_transitions_changing_only_abbreviation_or_dst_flag") >= 3, "hand-built zones contain transitions that change only the abbreviation or the DST flag");
+        r.require(r.get_count("static_zones") >= 20, "static zones (get! and include!) were walked");
+        r.require(r.get_count("static_zones_without_footer") >= 1, "a static zone without footer was walked");
+        r.require(r.get_count("posix_strings_walked_over_every_rule_year") >= 10, "POSIX strings were walked over every rule year");
+        r.require(r.get_count("starts_at_utc_year_boundaries") > 10_000, "starts at UTC year boundaries were probed");
+        r.require(r.get_count("starts_inside_hand_over_piece") > 100, "starts between the last recorded and the first rule-generated transition were probed");
+        r.require(r.get_count("starts_in_rule_years_below_1970") > 1000, "rule years before the epoch (incl. negative years) were probed");
+        r.require(r.get_count("iterator_contract_runs") > 1000, "Iterator/FusedIterator/Clone/Debug contract checked on exhaustive runs");
+        r.require(r.get_count("following_vs_preceding_sequences_compared") > 100, "following(MIN) compared with reversed preceding(MAX)");
     }
     r.finish();
 }
 
+/// More hand-built TZif shapes, for the index arithmetic of the table lookups
+/// (`index == 0`, `index == len - 1`) and for the places where the table ends
+/// and the lazy evaluation of the footer begins: in-memory fattening stops at
+/// UTC year 2038 *or* after 300 generated transitions, whichever comes first.
+fn extra_handbuilt() -> Vec<ZoneSrc> {
+    let d = |y: i64, m: i64, dd: i64, h: i64| cal::days_from_civil(y, m, dd) * 86400 + h * 3600;
+    let specs = vec![
+        // one recorded transition, DST footer: the 300-transition bound of the
+        // fattening is reached around 2030, before the year bound
+        hb::Spec {
+            name: "C14/OneTransDstFooter",
+            version: 2,
+            types: vec![(-17762, false, "LMT"), (-18000, false, "EST"), (-14400, true, "EDT")],
+            trans: vec![(d(1880, 1, 1, 12), 1)],
+            footer: "EST5EDT,M3.2.0,M11.1.0",
+            share_suffix: false,
+        },
+        // one recorded transition, no footer
+        hb::Spec { name: "C14/OneTransNoFooter", version: 2, types: vec![(3600, false, "AAA"), (7200, true, "BBB")], trans: vec![(d(1985, 6, 1, 0), 1)], footer: "", share_suffix: false },
+        // no transition, no footer: one local time type only
+        hb::Spec { name: "C14/ZeroTransNoFooter", version: 2, types: vec![(19800, false, "IST")], trans: vec![], footer: "", share_suffix: false },
+        // one recorded transition, footer without DST
+        hb::Spec { name: "C14/OneTransFooterNoDst", version: 3, types: vec![(-1800, false, "LMT"), (-3600, false, "WAT")], trans: vec![(d(1912, 1, 1, 0), 1)], footer: "WAT1", share_suffix: false },
+        // last recorded transition after 2037: nothing is fattened, the footer
+        // is evaluated lazily from 2050 on; the last recorded type is DST
+        hb::Spec {
+            name: "C14/LastTrans2050DstFooter",
+            version: 2,
+            types: vec![(34200, false, "ACST"), (37800, true, "ACDT")],
+            trans: vec![(d(1971, 10, 31, 2) - 34200, 1), (d(1972, 2, 27, 3) - 37800, 0), (d(2050, 10, 2, 2) - 34200, 1)],
+            footer: "ACST-9:30ACDT,M10.1.0,M4.1.0/3",
+            share_suffix: false,
+        },
+        // no-op recorded transitions (same local time type twice, as fat data
+        // has them), one of them the last one before a DST footer
+        hb::Spec {
+            name: "C14/NoopRecorded",
+            version: 2,
+            types: vec![(3600, false, "CET"), (7200, true, "CEST")],
+            trans: vec![(d(1980, 4, 6, 1), 1), (d(1980, 9, 28, 1), 0), (d(1981, 1, 1, 0), 0), (d(1996, 3, 31, 1), 1), (d(1996, 10, 27, 1), 0), (d(1997, 1, 1, 0), 0)],
+            footer: "CET-1CEST,M3.5.0,M10.5.0/3",
+            share_suffix: false,
+        },
+    ];
+    specs.iter().map(|s| ZoneSrc { name: s.name.to_string(), origin: "handbuilt".into(), bytes: hb::build(s), aliases: vec![] }).collect()
+}
+
+static FIXED_STATIC: TimeZone = TimeZone::fixed(jiff::tz::Offset::constant(-7));
+
+/// One iterator run, with what the `Iterator` contract observations gave.
+struct RunOut {
+    items: Vec<Item>,
+    ended: bool,
+    hint: (usize, Option<usize>),
+    /// `None` was followed by `Some` (FusedIterator promises it is not)
+    not_fused: bool,
+    /// a clone taken after the first item did not continue like the original
+    clone_diverged: bool,
+    /// a cloned item reads differently from the original, or Debug of the iterator / item is empty
+    item_clone_or_debug: bool,
+}
+
+impl RunOut {
+    fn contract_failure(&self) -> Option<&'static str> {
+        if self.not_fused {
+            return Some("yields-again-after-None");
+        }
+        if self.clone_diverged {
+            return Some("clone-continues-differently");
+        }
+        if self.item_clone_or_debug {
+            return Some("item-clone-or-debug");
+        }
+        if self.ended && (self.hint.0 > self.items.len() || self.hint.1.map_or(false, |h| h < self.items.len())) {
+            return Some("size_hint-excludes-actual-length");
+        }
+        None
+    }
+}
+
+fn item_of(t: &TimeZoneTransition<'_>) -> Item {
+    (t.timestamp().as_nanosecond(), t.offset().seconds(), t.dst().is_dst(), t.abbreviation().to_string())
+}
+
+/// Drive an iterator for at most `limit` items. With `contract`, also observe
+/// what the traits it implements promise (`FusedIterator`: `None` for ever
+/// after the first `None`; `Clone`: an independent copy that continues the
+/// same way; `size_hint` bounds; `Debug`).
+fn run_iter<'t, I>(mut it: I, limit: usize, contract: bool) -> RunOut
+where
+    I: Iterator<Item = TimeZoneTransition<'t>> + Clone + std::fmt::Debug + std::iter::FusedIterator,
+{
+    let mut out = RunOut { items: Vec::new(), ended: false, hint: it.size_hint(), not_fused: false, clone_diverged: false, item_clone_or_debug: false };
+    if contract && format!("{:?}", it).is_empty() {
+        out.item_clone_or_debug = true;
+    }
+    let mut cl: Option<I> = None;
+    while out.items.len() < limit {
+        match it.next() {
+            None => {
+                out.ended = true;
+                break;
+            }
+            Some(t) => {
+                if contract && out.items.len() < 64 {
+                    let c = t.clone();
+                    if item_of(&c) != item_of(&t) || format!("{:?}", t).is_empty() {
+                        out.item_clone_or_debug = true;
+                    }
+                }
+                out.items.push(item_of(&t));
+                if contract && out.items.len() == 1 {
+                    cl = Some(it.clone());
+                }
+            }
+        }
+    }
+    if contract {
+        if out.ended {
+            for _ in 0..3 {
+                if it.next().is_some() {
+                    out.not_fused = true;
+                }
+            }
+        }
+        if let Some(mut cl) = cl {
+            // the clone continues like the original did (first 64 items after the clone point)
+            for k in 1..out.items.len().min(65) {
+                match cl.next() {
+                    Some(t) if item_of(&t) == out.items[k] => {}
+                    _ => {
+                        out.clone_diverged = true;
+                        break;
+                    }
+                }
+            }
+            if out.ended && out.items.len() < 65 && cl.next().is_some() {
+                out.clone_diverged = true;
+            }
+        }
+    }
+    out
+}
+
 fn collect(tz: &TimeZone, start: Timestamp, forward: bool, limit: usize) -> Result<Vec<Item>, String> {
     guard(|| {
-        let f = |t: jiff::tz::TimeZoneTransition<'_>| (t.timestamp().as_nanosecond(), t.offset().seconds(), t.dst().is_dst(), t.abbreviation().to_string());
+        let f = |t: jiff::tz::TimeZoneTransition<'_>| item_of(&t);
         if forward {
             tz.following(start).take(limit).map(f).collect()
         } else {
@@ -103,9 +426,75 @@ fn collect(tz: &TimeZone, start: Timestamp, forward: bool, limit: usize) -> Resu
     })
 }
 
+/// A zone with what the oracle needs, computed once.
+struct Zc<'a> {
+    p: &'a Pair,
+    eff: Vec<Eff>,
+    /// `eff[lo..hi]` are the breakpoints inside the timestamp range
+    lo: usize,
+    hi: usize,
+    /// the data records a transition at or below the first second of the range
+    rec_below: bool,
+    /// the data records a transition after the last second of the range
+    rec_above: bool,
+    /// index of the last recorded breakpoint, if rule-generated ones follow it
+    hand_over: Option<usize>,
+}
+
+impl<'a> Zc<'a> {
+    fn new(p: &'a Pair) -> Zc<'a> {
+        let mut eff = p.model.effective();
+        // The hand-over entry (the last recorded transition, from which the
+        // footer governs) hides the footer's own rule instants at or before
+        // it. If one of those leaves its rule year, jiff's per-year evaluation
+        // yields the year boundary it clamps it to (F7) right after the
+        // hand-over although the exact instant is not after it: the hand-over
+        // entry then belongs to the F7 class like the rule entries themselves.
+        if let (Some(f), Some(h)) = (&p.model.footer, (1..eff.len()).rev().find(|&i| eff[i].recorded)) {
+            if let Ok(tz) = rtz::parse_posix(f.as_bytes()) {
+                let from = eff[h].start;
+                let y0 = cal::civil_from_days(from.div_euclid(86400)).0;
+                for y in (y0 - 1)..=(y0 + 1) {
+                    if let Some((a, b)) = tz.year_transitions(y) {
+                        for x in [a, b] {
+                            if x <= from && cal::civil_from_days(x.div_euclid(86400)).0 != y {
+                                eff[h].crosses_year = true;
+                            }
+                        }
+                    }
+                }
+            }
+        }
+        let lo = eff.partition_point(|e| e.start <= zones::TS_MIN_SEC).max(1);
+        let hi = eff.partition_point(|e| e.start <= zones::TS_MAX_SEC).max(lo);
+        let rec = |e: &Eff| e.recorded && e.start != i64::MIN;
+        let rec_below = eff.iter().skip(1).any(|e| rec(e) && e.start <= zones::TS_MIN_SEC);
+        let rec_above = eff.iter().skip(1).any(|e| rec(e) && e.start > zones::TS_MAX_SEC);
+        let hand_over = (1..eff.len()).rev().find(|&i| eff[i].recorded).filter(|&h| h + 1 < eff.len());
+        Zc { p, eff, lo, hi, rec_below, rec_above, hand_over }
+    }
+    /// F48 class: the instant lies in the second a recorded out-of-range
+    /// transition of this zone is clamped onto.
+    fn f48(&self, t_ns: i128) -> &'static str {
+        let s = t_ns.div_euclid(NS) as i64;
+        if (self.rec_below && s == zones::TS_MIN_SEC) || (self.rec_above && s == zones::TS_MAX_SEC) {
+            F48
+        } else {
+            ""
+        }
+    }
+}
+
+/// F7 class: the model entry the mismatch was found at, or a direct neighbour,
+/// is a rule transition whose exact UTC instant lies outside its rule year
+/// (jiff yields the year boundary it clamped that instant to instead, which
+/// lies between the entry and its neighbour). One entry on either side, i.e.
+/// about half a year; the check used three entries before the extension,
+/// which attributed unrelated mismatches up to 1.5 years away to F7.
+const F7_W: usize = 1;
 fn f7(eff: &[Eff], j: usize) -> &'static str {
-    let lo = j.saturating_sub(3);
-    let hi = (j + 3).min(eff.len().saturating_sub(1));
+    let lo = j.saturating_sub(F7_W);
+    let hi = (j + F7_W).min(eff.len().saturating_sub(1));
     if eff.is_empty() {
         return "";
     }
@@ -116,22 +505,33 @@ fn f7(eff: &[Eff], j: usize) -> &'static str {
     }
 }
 
-fn in_range(e: &Eff) -> bool {
-    e.start > zones::TS_MIN_SEC && e.start <= zones::TS_MAX_SEC
-}
-
 /// Check one iterator run against the effective breakpoint list.
 #[allow(clippy::too_many_arguments)]
-fn check_run(r: &Report, sec: &str, p: &Pair, eff: &[Eff], start_ns: i128, forward: bool, items: &[Item], ended: bool, lookups: bool) {
+fn check_run(r: &Report, agg: &mut Agg, sec: &str, zc: &Zc, start_ns: i128, forward: bool, items: &[Item], ended: bool, lookups: bool) {
+    let p = zc.p;
+    let eff = &zc.eff[..];
     let z = &p.model;
     let dir = if forward { "following" } else { "preceding" };
     let case = || format!("{}:{} {} from {}", p.origin, p.name, dir, vf::conv::fmt_ns(start_ns));
     let info = |e: &Eff| &z.infos[e.info as usize];
-    // candidate model entries in iteration order
-    let cand: Vec<usize> = if forward {
-        (1..eff.len()).filter(|&i| eff[i].start as i128 * NS > start_ns && in_range(&eff[i])).collect()
+    // candidate model entries in iteration order: the in-range breakpoints
+    // strictly beyond the start. `eff` is sorted by start, so they are a
+    // contiguous index range, walked upwards or downwards.
+    let (base, count) = if forward {
+        let b = eff.partition_point(|e| e.start as i128 * NS <= start_ns).max(zc.lo);
+        (b, zc.hi.saturating_sub(b))
     } else {
-        (1..eff.len()).rev().filter(|&i| (eff[i].start as i128 * NS) < start_ns && in_range(&eff[i])).collect()
+        let top = eff.partition_point(|e| (e.start as i128 * NS) < start_ns).min(zc.hi);
+        (top, top.saturating_sub(zc.lo))
+    };
+    let cand = |c: usize| -> Option<usize> {
+        if c >= count {
+            None
+        } else if forward {
+            Some(base + c)
+        } else {
+            Some(base - 1 - c)
+        }
     };
     let mut c = 0usize;
     let mut prev: Option<i128> = None;
@@ -139,49 +539,50 @@ fn check_run(r: &Report, sec: &str, p: &Pair, eff: &[Eff], start_ns: i128, forwa
         let t = it.0;
         let ok_order = if forward { t > start_ns && prev.map_or(true, |q| t > q) } else { t < start_ns && prev.map_or(true, |q| t < q) };
         if !ok_order {
-            r.viol(sec, &format!("{}/not-strictly-monotone-or-not-beyond-start", dir), case(), format!("item {} at {} (prev {:?})", n, vf::conv::fmt_ns(t), prev));
+            agg.add(r, sec, &format!("{}/not-strictly-monotone-or-not-beyond-start{}", dir, zc.f48(t)), case(), || format!("item {} at {} (prev {:?})", n, vf::conv::fmt_ns(t), prev));
             return;
         }
         prev = Some(t);
         // skip model entries passed over
-        loop {
-            if c >= cand.len() {
-                r.viol(sec, &format!("{}/yields-instant-that-is-no-transition{}", dir, f7(eff, eff.len().saturating_sub(1))), case(), format!("item {} at {} beyond all model transitions", n, vf::conv::fmt_ns(t)));
+        let j = loop {
+            let Some(j) = cand(c) else {
+                let k = zc.f48(t);
+                let k = if k.is_empty() { f7(eff, eff.len().saturating_sub(1)) } else { k };
+                agg.add(r, sec, &format!("{}/yields-instant-that-is-no-transition{}", dir, k), case(), || format!("item {} at {} beyond all model transitions", n, vf::conv::fmt_ns(t)));
                 return;
-            }
-            let e = &eff[cand[c]];
+            };
+            let e = &eff[j];
             let et = e.start as i128 * NS;
             let passed = if forward { et < t } else { et > t };
             if !passed {
-                break;
+                break j;
             }
             if e.changing {
-                r.viol(
-                    sec,
-                    &format!("{}/omits-transition{}", dir, f7(eff, cand[c])),
-                    case(),
-                    format!("model transition at {} ({:?} -> {:?}) skipped; jiff item {} is at {}", e.start, info(&eff[cand[c] - 1]), info(e), n, vf::conv::fmt_ns(t)),
-                );
+                agg.add(r, sec, &format!("{}/omits-transition{}", dir, f7(eff, j)), case(), || {
+                    format!("model transition at {} ({:?} -> {:?}) skipped; jiff item {} is at {}", e.start, info(&eff[j - 1]), info(e), n, vf::conv::fmt_ns(t))
+                });
                 return;
             }
             c += 1;
-        }
-        let e = &eff[cand[c]];
+        };
+        let e = &eff[j];
         if e.start as i128 * NS != t {
-            r.viol(sec, &format!("{}/yields-instant-that-is-no-transition{}", dir, f7(eff, cand[c])), case(), format!("item {} at {}; nearest model transition {}", n, vf::conv::fmt_ns(t), e.start));
+            let k = zc.f48(t);
+            let k = if k.is_empty() { f7(eff, j) } else { k };
+            agg.add(r, sec, &format!("{}/yields-instant-that-is-no-transition{}", dir, k), case(), || format!("item {} at {}; nearest model transition {}", n, vf::conv::fmt_ns(t), e.start));
             return;
         }
         if !e.changing && !e.recorded {
             // input class: the first rule-generated instant after the recorded
             // transitions (the hand-over), as opposed to any later rule instant
-            let first_rule = cand[c] > 0 && eff[cand[c] - 1].recorded;
-            let k = if first_rule && f7(eff, cand[c]).is_empty() { ":first-rule-instant-after-the-recorded-transitions" } else { "" };
-            r.viol(sec, &format!("{}/yields-rule-instant-where-nothing-changes{}{}", dir, k, f7(eff, cand[c])), case(), format!("item {} at {}", n, vf::conv::fmt_ns(t)));
+            let first_rule = j > 0 && eff[j - 1].recorded;
+            let k = if first_rule && f7(eff, j).is_empty() { ":first-rule-instant-after-the-recorded-transitions" } else { "" };
+            agg.add(r, sec, &format!("{}/yields-rule-instant-where-nothing-changes{}{}", dir, k, f7(eff, j)), case(), || format!("item {} at {}", n, vf::conv::fmt_ns(t)));
             return;
         }
         let m = info(e);
         if (it.1, it.2, it.3.as_str()) != (m.utoff, m.dst, m.abbrev.as_str()) {
-            r.viol(sec, &format!("{}/item-info{}", dir, f7(eff, cand[c])), case(), format!("item {} at {}: jiff ({}, {}, {}) model ({}, {}, {})", n, e.start, it.1, it.2, it.3, m.utoff, m.dst, m.abbrev));
+            agg.add(r, sec, &format!("{}/item-info{}", dir, f7(eff, j)), case(), || format!("item {} at {}: jiff ({}, {}, {}) model ({}, {}, {})", n, e.start, it.1, it.2, it.3, m.utoff, m.dst, m.abbrev));
             return;
         }
         if lookups {
@@ -195,13 +596,13 @@ fn check_run(r: &Report, sec: &str, p: &Pair, eff: &[Eff], start_ns: i128, forwa
             });
             if let Ok((a, b)) = got {
                 if (a.0, a.1, a.2.as_str()) != (it.1, it.2, it.3.as_str()) {
-                    r.viol(sec, &format!("{}/item-disagrees-with-direct-lookup-at{}", dir, f7(eff, cand[c])), case(), format!("item {:?} lookup {:?}", it, a));
+                    agg.add(r, sec, &format!("{}/item-disagrees-with-direct-lookup-at{}", dir, f7(eff, j)), case(), || format!("item {:?} lookup {:?}", it, a));
                     return;
                 }
                 if let Some(b) = b {
-                    let pm = info(&eff[cand[c] - 1]);
+                    let pm = info(&eff[j - 1]);
                     if e.changing && (b.0, b.1, b.2.as_str()) != (pm.utoff, pm.dst, pm.abbrev.as_str()) {
-                        r.viol(sec, &format!("{}/direct-lookup-just-before-item{}", dir, f7(eff, cand[c])), case(), format!("lookup at item-1ns {:?} model {:?}", b, pm));
+                        agg.add(r, sec, &format!("{}/direct-lookup-just-before-item{}", dir, f7(eff, j)), case(), || format!("lookup at item-1ns {:?} model {:?}", b, pm));
                         return;
                     }
                 }
@@ -211,15 +612,12 @@ fn check_run(r: &Report, sec: &str, p: &Pair, eff: &[Eff], start_ns: i128, forwa
     }
     if ended {
         // iterator exhausted: no changing transition may remain
-        while c < cand.len() {
-            let e = &eff[cand[c]];
+        while let Some(j) = cand(c) {
+            let e = &eff[j];
             if e.changing {
-                r.viol(
-                    sec,
-                    &format!("{}/omits-transition{}", dir, f7(eff, cand[c])),
-                    case(),
-                    format!("iterator ended after {} items; model transition at {} ({:?} -> {:?}) never yielded", items.len(), e.start, info(&eff[cand[c] - 1]), info(e)),
-                );
+                agg.add(r, sec, &format!("{}/omits-transition{}", dir, f7(eff, j)), case(), || {
+                    format!("iterator ended after {} items; model transition at {} ({:?} -> {:?}) never yielded", items.len(), e.start, info(&eff[j - 1]), info(e))
+                });
                 return;
             }
             c += 1;
@@ -227,104 +625,200 @@ fn check_run(r: &Report, sec: &str, p: &Pair, eff: &[Eff], start_ns: i128, forwa
     }
 }
 
-/// Footers already walked in full, per origin. The rule-generated part of a
-/// zone (everything after the hand-over from the recorded transitions) is a
-/// function of the footer string alone, in the model and in jiff (the same
-/// `PosixTimeZone` code evaluates it, whatever the zone's recorded history).
-/// So in the thorough tier the walk over *every* rule year up to 9999 is done
-/// for the first zone of each (origin, footer) class and for every
-/// representative, synthetic and POSIX zone; the other members of a class get
-/// all their recorded transitions, the hand-over and the windows of rule years
-/// the quick tier uses. Merged states have the same futures; what differs
-/// between members (history, hand-over index) is still probed for each.
-static FOOTERS_WALKED: std::sync::Mutex<Option<std::collections::HashSet<(String, String)>>> = std::sync::Mutex::new(None);
-
-fn first_of_footer_class(p: &Pair) -> bool {
-    if p.origin == "posix" {
-        // generated strings: every 64th one (by length of the string)
-        return p.name.len() % 64 == 0;
-    }
-    if p.origin.starts_with("synth") || zones::REP.contains(&p.name.as_str()) {
-        return true;
-    }
-    let Some(f) = p.model.footer.clone() else { return true };
-    let mut g = FOOTERS_WALKED.lock().unwrap();
-    g.get_or_insert_with(Default::default).insert((p.origin.clone(), f))
+/// Rule years probed when a zone is not walked over every rule year: a window
+/// of rule years after the last recorded one (incl. the end of in-memory
+/// fattening, 2037/2038), a century boundary that is no leap year, a
+/// 400-year leap year, the years around year 0 (sign change; year 0 is a leap
+/// year) and around the epoch (rule instants change sign), every 97th year
+/// (97 is prime to 4, 100 and 400: leap years, common years and both signs
+/// occur, from -9991 to 9991), and the ends of the range.
+fn year_selected(y: i64) -> bool {
+    (2007..2012).contains(&y)
+        || (2037..2041).contains(&y)
+        || (2099..2101).contains(&y)
+        || (2399..2401).contains(&y)
+        || (-1..=1).contains(&y)
+        || (1968..=1971).contains(&y)
+        || y.rem_euclid(97) == 0
+        || y >= 9997
+        || y <= -9997
 }
 
-fn check_zone(r: &Report, sec: &str, p: &Pair) -> (u64, u64) {
-    let eff = p.model.effective();
-    let quick = r.quick();
-    let full_walk = !quick && first_of_footer_class(p);
-    if !quick {
-        r.count(if full_walk { "zones_walked_over_every_rule_year" } else { "zones_walked_over_rule_year_windows(footer class already walked in full)" }, 1);
-    }
+fn year_start(y: i64) -> i64 {
+    cal::days_from_civil(y, 1, 1) * 86400
+}
+
+fn check_zone(r: &Report, sec: &str, p: &Pair, walk: Walk) -> (u64, u64) {
+    let zc = Zc::new(p);
+    let eff = &zc.eff[..];
+    let mut agg = Agg::new(r);
+    r.count(if walk == Walk::Full { "zones_walked_over_every_rule_year" } else { "zones_walked_over_selected_rule_years" }, 1);
     let mut runs = 0u64;
     let mut nitems = 0u64;
     const CAP: usize = 40_000;
-    // to exhaustion from the limits and the epoch
-    let mut ex: Vec<(Timestamp, bool)> = vec![(Timestamp::MIN, true), (Timestamp::MAX, false), (Timestamp::MAX, true), (Timestamp::MIN, false)];
-    // POSIX strings run to exhaustion over the last / first millennium only
-    // (thorough: every 64th string, by length of the string, over the whole range)
-    if (p.origin == "posix" && quick) || (!quick && !full_walk) {
+    let min_ns = Timestamp::MIN.as_nanosecond();
+    let max_ns = Timestamp::MAX.as_nanosecond();
+    let dirname = |f: bool| if f { "following" } else { "preceding" };
+
+    // ---- to exhaustion from the limits (and the epoch) -------------------
+    // (start, forward, item limit)
+    let mut ex: Vec<(Timestamp, bool, usize)> = vec![(Timestamp::MIN, true, CAP), (Timestamp::MAX, false, CAP), (Timestamp::MAX, true, CAP), (Timestamp::MIN, false, CAP)];
+    if walk == Walk::MillenniaAndWindows {
         ex[0].0 = Timestamp::from_second(221_845_392_000).unwrap(); // 9000-01-01
         ex[1].0 = Timestamp::from_second(-346_149_504_000).unwrap(); // ~ -9000
     }
-    if full_walk {
-        ex.push((Timestamp::UNIX_EPOCH, true));
-        ex.push((Timestamp::UNIX_EPOCH, false));
+    if walk == Walk::Full {
+        ex.push((Timestamp::UNIX_EPOCH, true, CAP));
+        ex.push((Timestamp::UNIX_EPOCH, false, CAP));
     }
-    for (start, forward) in ex {
-        match collect(&p.jiff, start, forward, CAP) {
-            Err(pn) => r.viol(sec, &format!("{}/{}", if forward { "following" } else { "preceding" }, panic_sig(&pn)), format!("{}:{} from {}", p.origin, p.name, start), pn),
-            Ok(items) => {
-                if items.len() >= CAP {
-                    r.cap(format!("{}:{} iterator longer than {} items", p.origin, p.name, CAP));
+    let mut fwd_all: Option<Vec<Item>> = None;
+    let mut bwd_all: Option<Vec<Item>> = None;
+    for (start, forward, limit) in ex {
+        let got = guard(|| if forward { run_iter(p.jiff.following(start), limit, true) } else { run_iter(p.jiff.preceding(start), limit, true) });
+        match got {
+            Err(pn) => r.viol(sec, &format!("{}/{}", dirname(forward), panic_sig(&pn)), format!("{}:{} from {}", p.origin, p.name, start), pn),
+            Ok(run) => {
+                if !run.ended {
+                    r.cap(format!("{}:{} iterator longer than {} items", p.origin, p.name, limit));
                 }
-                check_run(r, sec, p, &eff, start.as_nanosecond(), forward, &items, items.len() < CAP, true);
+                check_run(r, &mut agg, sec, &zc, start.as_nanosecond(), forward, &run.items, run.ended, true);
+                if let Some(what) = run.contract_failure() {
+                    agg.add(r, sec, &format!("{}/iterator-contract:{}", dirname(forward), what), format!("{}:{} {} from {}", p.origin, p.name, dirname(forward), vf::conv::fmt_ns(start.as_nanosecond())), || {
+                        format!("{} items, ended {}, size_hint {:?}", run.items.len(), run.ended, run.hint)
+                    });
+                }
                 runs += 1;
-                nitems += items.len() as u64;
+                nitems += run.items.len() as u64;
                 r.count("exhaustive_runs", 1);
+                r.count("iterator_contract_runs", 1);
+                if run.ended && start == Timestamp::MIN && forward {
+                    fwd_all = Some(run.items);
+                } else if run.ended && start == Timestamp::MAX && !forward {
+                    bwd_all = Some(run.items);
+                }
             }
         }
     }
-    // first three items from every probe instant
-    let filter = |e: &Eff| -> bool {
-        if e.recorded {
-            return true;
+    // `following` from the lower limit and `preceding` from the upper limit
+    // enumerate the same transitions (each is "exactly the instants where the
+    // info changes", strictly inside the range)
+    if let (Some(f), Some(b)) = (&fwd_all, &bwd_all) {
+        r.count("following_vs_preceding_sequences_compared", 1);
+        let same = f.len() == b.len() && f.iter().zip(b.iter().rev()).all(|(x, y)| x == y);
+        if !same {
+            // first difference, counted from the lower end
+            let br: Vec<&Item> = b.iter().rev().collect();
+            let k = (0..f.len().max(br.len())).find(|&k| f.get(k) != br.get(k).copied()).unwrap_or(0);
+            let t = f.get(k).map(|x| x.0).or(br.get(k).map(|x| x.0)).unwrap_or(0);
+            let t2 = br.get(k).map(|x| x.0).unwrap_or(t);
+            // input class of the place where they part: the model entries around it
+            let j = eff.partition_point(|e| (e.start as i128 * NS) < t.min(t2)).min(eff.len() - 1);
+            let mut k7 = zc.f48(t);
+            if k7.is_empty() {
+                k7 = zc.f48(t2);
+            }
+            if k7.is_empty() {
+                k7 = f7(eff, j);
+            }
+            let hand_over = k7.is_empty() && j > 0 && j < eff.len() && !eff[j].recorded && eff[j - 1].recorded;
+            let k43 = if hand_over { ":first-rule-instant-after-the-recorded-transitions" } else { "" };
+            agg.add(r, sec, &format!("following-vs-preceding/sequences-differ{}{}", k43, k7), format!("{}:{} following from MIN vs preceding from MAX", p.origin, p.name), || {
+                format!("following yields {} items, preceding {}; first difference at position {}: {:?} vs {:?}", f.len(), b.len(), k, f.get(k), br.get(k))
+            });
         }
-        let y = e.rule_year;
-        if quick || !full_walk {
-            // a window of rule years after the last recorded one, a century boundary, the end of the range
-            (2007..2012).contains(&y) || (2037..2041).contains(&y) || (2099..2101).contains(&y) || y >= 9997 || y <= -9997
-        } else {
-            true
-        }
-    };
+    }
+
+    // ---- first three items from every probe instant ----------------------
+    let all_years = walk == Walk::Full;
+    // recorded transitions, the first rule-generated ones after the hand-over
+    // whatever their year, and the selected (or all) rule years
+    let selected = |i: usize, e: &Eff| -> bool { e.recorded || all_years || year_selected(e.rule_year) || zc.hand_over.map_or(false, |h| i > h && i <= h + 4) };
+    let mut starts: Vec<i128> = vec![];
+    let clip = |x: i128| x >= min_ns && x <= max_ns;
+    // limits and the epoch, with their neighbours
+    for s in [min_ns, min_ns + 1, min_ns + NS / 2, min_ns + NS, min_ns + NS + 1, -NS, -NS / 2, -1, 0, 1, NS / 2, NS, max_ns - NS - 999_999_999, max_ns - NS, max_ns - 999_999_999, max_ns - NS / 2, max_ns - 1, max_ns] {
+        starts.push(s);
+    }
+    let mut n_hand_over = 0u64;
+    let mut n_below_1970 = 0u64;
+    let mut years: Vec<i64> = vec![];
     for i in 1..eff.len() {
-        if !in_range(&eff[i]) || !filter(&eff[i]) {
+        let e = &eff[i];
+        if !(i >= zc.lo && i < zc.hi) || !selected(i, e) {
             continue;
         }
-        for s in zones::instants_around(eff[i].start) {
-            let Ok(start) = Timestamp::from_nanosecond(s) else { continue };
-            for forward in [true, false] {
-                match collect(&p.jiff, start, forward, 3) {
-                    Err(pn) => r.viol(sec, &format!("{}/{}", if forward { "following" } else { "preceding" }, panic_sig(&pn)), format!("{}:{} from {}", p.origin, p.name, start), pn),
-                    Ok(items) => {
-                        check_run(r, sec, p, &eff, s, forward, &items, items.len() < 3, false);
-                        runs += 1;
-                        nitems += items.len() as u64;
-                    }
+        starts.extend(zones::instants_around(e.start));
+        // the middle of the piece before and of the piece after this breakpoint
+        if eff[i - 1].start != i64::MIN {
+            let m = (eff[i - 1].start as i128 + e.start as i128) * NS / 2;
+            if clip(m) {
+                starts.push(m);
+                if eff[i - 1].recorded && !e.recorded {
+                    n_hand_over += 1;
+                }
+            }
+        }
+        if i + 1 < eff.len() {
+            let m = (eff[i + 1].start as i128 + e.start as i128) * NS / 2;
+            if clip(m) {
+                starts.push(m);
+                if e.recorded && !eff[i + 1].recorded {
+                    n_hand_over += 1;
+                }
+            }
+        }
+        if !e.recorded {
+            years.push(e.rule_year);
+            if e.start < 0 {
+                n_below_1970 += 1;
+            }
+        }
+    }
+    // UTC year boundaries of the selected rule years (and of the year after)
+    years.sort_unstable();
+    years.dedup();
+    let mut n_year_bounds = 0u64;
+    let mut last_b = i64::MIN;
+    for &y in &years {
+        for yy in [y, y + 1] {
+            if yy < cal::MIN_YEAR || yy > cal::MAX_YEAR {
+                continue;
+            }
+            let b = year_start(yy);
+            if b == last_b {
+                continue;
+            }
+            last_b = b;
+            let v = zones::instants_around(b);
+            n_year_bounds += v.len() as u64;
+            starts.extend(v);
+        }
+    }
+    starts.sort_unstable();
+    starts.dedup();
+    r.count("starts_at_utc_year_boundaries", n_year_bounds);
+    r.count("starts_inside_hand_over_piece", n_hand_over);
+    r.count("starts_in_rule_years_below_1970", n_below_1970);
+    r.count("probe_starts", starts.len() as u64);
+    for &s in &starts {
+        let Ok(start) = Timestamp::from_nanosecond(s) else { continue };
+        for forward in [true, false] {
+            match collect(&p.jiff, start, forward, 3) {
+                Err(pn) => r.viol(sec, &format!("{}/{}", dirname(forward), panic_sig(&pn)), format!("{}:{} from {}", p.origin, p.name, start), pn),
+                Ok(items) => {
+                    check_run(r, &mut agg, sec, &zc, s, forward, &items, items.len() < 3, false);
+                    runs += 1;
+                    nitems += items.len() as u64;
                 }
             }
         }
     }
+    agg.flush(r, sec);
     r.add_transitions(nitems);
     r.add_validated(nitems);
     if p.name == "America/New_York" && p.origin == "sys" {
         let first = collect(&p.jiff, Timestamp::UNIX_EPOCH, true, 2).unwrap_or_default();
         r.sample(json!({"zone": p.name, "effective_breakpoints": eff.len(), "following(epoch)[0..2]": format!("{:?}", first)}));
     }
-    let _: Option<rtz::Zone> = None;
     (runs, nitems)
 }
